@@ -11,7 +11,7 @@ API (everything is regenerated on the current breezy; nothing is cached on disk)
         by the reference model, dedup on the canonical model state.
         Result.states   {canonical key: history}   (history = tuple of ops)
         Result.acc      par.Acc with counters / violations (C09's oracle)
-  sequences(depth, kind, ns=NS1)  -> sorted list of histories, one per distinct reachable
+  sequences(depth, kind, ns=NS1, start=())  -> sorted list of histories, one per distinct reachable
         state (the shortest, lexicographically first history reaching it), [()] first.
   build(seq, kind, path=None)  -> (WorkingTree, Model): fresh tree on /dev/shm with the
         history replayed (real code), and the model state that goes with it.
@@ -19,7 +19,7 @@ API (everything is regenerated on the current breezy; nothing is cached on disk)
 
 An op is a tuple: ("write",p,c) ("chmod",p) ("mkdir",d) ("add",p) ("sadd",)
 ("rm",p,"keep"|"force"|"safe") ("unv",p) ("mv",p,q) ("move",p,d) ("commit",)
-("revert",) ("revertp",p) and the pseudo op ("reopen",) = drop the object, WorkingTree.open.
+("revert",) ("revertp",p) ("flip",p) and the pseudo op ("reopen",) = drop the object, WorkingTree.open.
 """
 import os
 import shutil
@@ -32,8 +32,9 @@ COMMITTER = "Verif <verif@example.com>"
 class NS:
     """A bounded namespace: allowed file paths, directory paths, contents."""
 
-    def __init__(self, name, files, dirs, contents=(b"x\n", b"y\n")):
+    def __init__(self, name, files, dirs, contents=(b"x\n", b"y\n"), flip=False):
         self.name = name
+        self.flip = flip          # alphabet includes ("flip", p): file <-> empty directory on disk
         self.files = tuple(files)
         self.dirs = tuple(dirs)
         self.contents = tuple(contents)
@@ -43,6 +44,8 @@ class NS:
 NS1 = NS("a,b,d/,d/a", ("a", "b", "d/a"), ("d",))
 NS2 = NS("a,b,d/,e/,d/a,e/a", ("a", "b", "d/a", "e/a"), ("d", "e"))
 NS3 = NS("a,d/,d/a,d/e/,d/e/a", ("a", "d/a", "d/e/a"), ("d", "d/e"), contents=(b"x\n",))
+NS1F = NS("a,b,d/,d/a+kindflip", ("a", "b", "d/a"), ("d",), flip=True)
+NAMESPACES = {n.name: n for n in (NS1, NS2, NS3, NS1F)}
 
 
 def parent(p):
@@ -51,6 +54,14 @@ def parent(p):
 
 def base(p):
     return p.rsplit("/", 1)[-1]
+
+
+def ancestors(p):
+    out = []
+    while "/" in p:
+        p = parent(p)
+        out.append(p)
+    return out
 
 
 def inside(d, p):
@@ -256,6 +267,9 @@ class Model:
                 self.disk[p] = ("file", v[2], v[3])
             else:
                 del self.ver[p]
+        elif k == "flip":
+            p = op[1]
+            self.disk[p] = ("directory",) if self.isfile(p) else ("file", b"x\n", False)
         elif k == "reopen":
             pass
         else:
@@ -329,22 +343,35 @@ def enabled(m):
                     out.append(("mv", p, q))
                     if parent(q) != "" and base(q) == base(p) and parent(q) != parent(p):
                         out.append(("move", p, parent(q)))
+    if ns.flip and not m.git:
+        for p in ns.paths:
+            if p in m.ver and (m.isfile(p) or not any(inside(p, q) and q != p for q in m.disk)):
+                out.append(("flip", p))
     if changed or m.basis is None:
         out.append(("commit",))
     if changed:
         out.append(("revert",))
+    # git pairs removed and added files by content similarity (rename detection) and then reverts
+    # both ends together; the model has no identities there, so the single-path cases are
+    # only enabled when no pairing is possible
+    git_added = m.git and any(p not in bs for p in m.ver)
+    git_removed = m.git and any(p not in m.ver for p in bs)
     for p in ns.files:
+        # revert of one path: only the cases whose outcome the statement determines - every
+        # ancestor directory is unchanged (same identity at the same path in basis and tree)
+        par_ok = all(m.isdir(a) and (m.git or (a in m.ver and a in bs and m.ver[a] == bs[a][0]))
+                     for a in ancestors(p))
+        if not par_ok:
+            continue
         if p in bs and p in m.ver and bs[p][0] == m.ver[p] and m.isfile(p) and bs[p][1] == "file":
             d = m.disk[p]
-            if (d[1], d[2]) != (bs[p][2], bs[p][3]):
+            if (d[1], d[2]) != (bs[p][2], bs[p][3]) and not (git_added or git_removed):
                 out.append(("revertp", p))
         elif p in bs and p not in m.ver and bs[p][1] == "file" and p not in m.disk \
-                and m.versioned(parent(p)) and m.isdir(parent(p)) \
-                and (m.git or (bs[p][0] not in m.ver.values()
-                               and m.ver.get(parent(p), 0) == bs.get(parent(p), (0,))[0])):
+                and (not git_added if m.git else bs[p][0] not in m.ver.values()):
             out.append(("revertp", p))
         elif p in m.ver and p not in bs and m.isfile(p) and \
-                (m.git or m.ver[p] not in [v[0] for v in bs.values()]):
+                (not git_removed if m.git else m.ver[p] not in [v[0] for v in bs.values()]):
             out.append(("revertp", p))
     return out
 
@@ -399,6 +426,15 @@ def run_op(tree, op, nrev=0):
         tree.revert(backups=False)
     elif k == "revertp":
         tree.revert([op[1]], backups=False)
+    elif k == "flip":
+        ap = os.path.join(root, op[1])
+        if os.path.isdir(ap):
+            os.rmdir(ap)
+            with open(ap, "wb") as f:
+                f.write(b"x\n")
+        else:
+            os.unlink(ap)
+            os.mkdir(ap)
     elif k == "reopen":
         return reopen(tree)
     else:
@@ -436,3 +472,375 @@ def build(seq, kind, path=None, ns=NS1):
         if m.adopt is not None:
             m.adopt_disk(real_disk(tree))
     return tree, m
+
+
+# ---- observation and comparison with the model ------------------------------------
+
+def observe(tree, ns):
+    """Everything the property talks about, read through the public tree API."""
+    from breezy.transport import NoSuchFile
+    o = {}
+    with tree.lock_read():
+        vp = sorted(p for p in tree.all_versioned_paths() if p != "")
+        ents = {}
+        for p in vp:
+            try:
+                k = tree.kind(p)
+            except NoSuchFile:
+                k = "missing"
+            if k == "file":
+                ents[p] = (k, tree.get_file_text(p), bool(tree.is_executable(p)))
+            else:
+                ents[p] = (k, None, False)
+        o["wt"] = ents
+        o["ids"] = {p: tree.path2id(p) for p in vp}
+        o["iebd"] = sorted((p, ie.kind) for p, ie in tree.iter_entries_by_dir() if p != "")
+        o["isv"] = {p: bool(tree.is_versioned(p)) for p in ns.paths}
+        o["parents"] = list(tree.get_parent_ids())
+        basis = tree.basis_tree()
+        with basis.lock_read():
+            bents = {}
+            bids = {}
+            o["basis_root"] = False
+            for p, ie in basis.iter_entries_by_dir():
+                if p == "":
+                    o["basis_root"] = True
+                    continue
+                k = basis.kind(p)
+                if k == "file":
+                    bents[p] = (k, basis.get_file_text(p), bool(basis.is_executable(p)))
+                else:
+                    bents[p] = (k, None, False)
+                bids[p] = basis.path2id(p)
+            o["basis"] = bents
+            o["bids"] = bids
+            for name, kw in (("changes", {}), ("changes_unv", {"want_unversioned": True})):
+                if name == "changes_unv" and is_git(tree):
+                    continue
+                rows = []
+                for c in tree.iter_changes(basis, **kw):
+                    rows.append((c.path, bool(c.changed_content), tuple(c.versioned), tuple(c.name),
+                                 tuple(c.kind), tuple(c.executable), tuple(c.parent_id), c.file_id,
+                                 bool(getattr(c, "copied", False))))
+                o[name] = sorted(rows, key=repr)
+        o["has_changes"] = bool(tree.has_changes())
+    return o
+
+
+def _x(v):
+    return bool(v) if v is not None else None
+
+
+def compare(o, m, disk):
+    """List of (aspect, detail) where the real observation o / disk differs from model m."""
+    bad = []
+    wt = m.wt_entries()
+    exp = {p: (v[1], v[2], v[3]) for p, v in wt.items()}
+    bexp = {p: (v[1], v[2], v[3]) for p, v in (m.basis or {}).items()}
+    if m.git:
+        for d in m.versioned_dirs_git(exp):
+            exp[d] = ("directory", None, False)
+        for d in m.versioned_dirs_git(list(bexp)):
+            bexp[d] = ("directory", None, False)
+    if sorted(o["wt"]) != sorted(exp):
+        bad.append(("versioned-paths", {"real": sorted(o["wt"]), "model": sorted(exp)}))
+    else:
+        for p in exp:
+            r, e = o["wt"][p], exp[p]
+            if r[0] != e[0]:
+                bad.append(("kind", {"path": p, "real": r[0], "model": e[0]}))
+            elif r[1] != e[1]:
+                bad.append(("content", {"path": p, "real": r[1], "model": e[1]}))
+            elif r[2] != e[2]:
+                bad.append(("exec", {"path": p, "real": r[2], "model": e[2]}))
+    if sorted(p for p, _ in o["iebd"]) != sorted(o["wt"]):
+        bad.append(("api-disagree:iter_entries_by_dir-vs-all_versioned_paths",
+                    {"iter_entries_by_dir": o["iebd"], "all_versioned_paths": sorted(o["wt"])}))
+    for p, v in o["isv"].items():
+        if v != (p in exp):
+            bad.append(("api-disagree:is_versioned", {"path": p, "is_versioned": v, "model": p in exp}))
+    for p, i in o["ids"].items():
+        if i is None:
+            bad.append(("api-disagree:path2id-None-for-versioned-path", {"path": p}))
+    if o["basis"] != bexp:
+        bad.append(("basis", {"real": o["basis"], "model": bexp}))
+    if o["basis_root"] != (m.basis is not None):
+        bad.append(("basis-root", {"real": o["basis_root"], "commits": m.nrev}))
+    if len(o["parents"]) != (1 if m.basis is not None else 0):
+        bad.append(("parents", {"real": o["parents"], "commits": m.nrev}))
+    if disk != m.disk:
+        bad.append(("disk", {"real": disk, "model": m.disk}))
+    if not m.git:
+        # identities: real file ids <-> model identities must be one bijection over both trees
+        fwd, rev = {}, {}
+        pairs = [(o["ids"].get(p), i) for p, i in m.ver.items()] + \
+                [(o["bids"].get(p), v[0]) for p, v in (m.basis or {}).items()]
+        for r, i in pairs:
+            if fwd.setdefault(r, i) != i or rev.setdefault(i, r) != r:
+                bad.append(("identity", {"wt_ids": o["ids"], "basis_ids": o["bids"], "model_wt": m.ver,
+                                          "model_basis": {p: v[0] for p, v in (m.basis or {}).items()}}))
+                break
+        expd = m.diff()
+        got = sorted(((c[0][0], c[0][1], c[1], c[4], (_x(c[5][0]), _x(c[5][1]))) for c in o["changes"]), key=repr)
+        if got != expd:
+            bad.append(("changes", {"real": got, "model": expd}))
+        for c in o["changes"]:
+            (op, np_), vers, names = c[0], c[2], c[3]
+            if vers != (op is not None, np_ is not None) or \
+                    names != (None if op is None else base(op), None if np_ is None else base(np_)):
+                bad.append(("changes-inconsistent-row", {"row": c[:7]}))
+            pids = (None if op in (None, "") else (o["bids"].get(parent(op)) if parent(op) else "ROOT"),
+                    None if np_ in (None, "") else (o["ids"].get(parent(np_)) if parent(np_) else "ROOT"))
+            for side in (0, 1):
+                if pids[side] not in (None, "ROOT") and c[6][side] != pids[side]:
+                    bad.append(("changes-inconsistent-parent", {"row": c[:7]}))
+        unv = sorted(c[0][1] for c in o["changes_unv"] if c[2] == (False, False))
+        ver_rows = [c for c in o["changes_unv"] if c[2] != (False, False)]
+        if ver_rows != o["changes"]:
+            bad.append(("changes-unversioned-variant-differs", {"with": ver_rows, "without": o["changes"]}))
+        expu = sorted(p for p in m.disk if p not in m.ver and m.versioned(parent(p)))
+        if unv != expu:
+            bad.append(("unversioned", {"real": unv, "model": expu}))
+    else:
+        rem, add, mod = set(), set(), set()
+        for c in o["changes"]:
+            (op, np_), kinds = c[0], c[4]
+            if "directory" in kinds and set(kinds) <= {"directory", None}:
+                continue
+            if op is not None and np_ is not None and op == np_:
+                if kinds[0] is None:
+                    add.add(np_)
+                elif kinds[1] is None:
+                    rem.add(op)
+                else:
+                    mod.add(np_)
+                continue
+            if op is not None and c[2][0] and not c[8]:
+                rem.add(op)
+            if np_ is not None and c[2][1]:
+                add.add(np_)
+        erem, eadd, emod = m.diff()
+        # a path reported as copy source stays; a rename whose content also changed is still remove+add
+        if (rem, add) != (erem, eadd) or mod != emod:
+            bad.append(("changes", {"real": {"removed": sorted(rem), "added": sorted(add), "modified": sorted(mod)},
+                                    "model": {"removed": sorted(erem), "added": sorted(eadd), "modified": sorted(emod)},
+                                    "rows": [c[:6] + (("copied",) if c[8] else ()) for c in o["changes"]]}))
+    if o["has_changes"] != m.has_changes() and not (m.basis is None and not m.git):
+        bad.append(("has_changes", {"real": o["has_changes"], "model": m.has_changes()}))
+    return bad
+
+
+def innermost_repo_frame(exc):
+    """'file.py:function' of the innermost traceback frame that lives in the checked breezy."""
+    import traceback
+    best = None
+    for fs in traceback.extract_tb(exc.__traceback__):
+        fn = os.path.realpath(fs.filename)
+        if fn.startswith(os.path.realpath(boot.REPO) + os.sep):
+            best = "%s:%s" % (os.path.relpath(fn, os.path.realpath(boot.REPO)), fs.name)
+    return best or "outside-repo"
+
+
+class Trouble(Exception):
+    def __init__(self, sig, detail):
+        Exception.__init__(self, sig)
+        self.sig = sig
+        self.detail = detail
+
+
+def step(tree, m, op, kind, acc=None, check=True):
+    """Run op on the real tree and on the model (in place), compare.  Returns the tree object.
+    Raises Trouble(signature, detail) on any disagreement / exception."""
+    try:
+        tree = run_op(tree, op, m.nrev)
+    except Exception as e:  # noqa: an exception for an operation the model enables is a finding
+        raise Trouble("%s:%s:%s:%s" % (kind, opname(op), type(e).__name__, innermost_repo_frame(e)),
+                      {"error": str(e)[:300]})
+    m.apply(op)
+    disk = real_disk(tree)
+    m.adopt_disk(disk)
+    if not check:
+        return tree
+    try:
+        o = observe(tree, m.ns)
+    except Exception as e:  # noqa
+        raise Trouble("%s:observe-after-%s:%s:%s" % (kind, opname(op), type(e).__name__, innermost_repo_frame(e)),
+                      {"error": str(e)[:300]})
+    bad = compare(o, m, disk)
+    if bad:
+        raise Trouble("%s:%s:%s" % (kind, opname(op), bad[0][0]), {"aspect": bad[0][0], "mismatch": bad[0][1],
+                                                                 "other_aspects": [b[0] for b in bad[1:]]})
+    try:
+        o2 = observe(reopen(tree), m.ns)
+    except Exception as e:  # noqa
+        raise Trouble("%s:reopen-after-%s:%s:%s" % (kind, opname(op), type(e).__name__, innermost_repo_frame(e)),
+                      {"error": str(e)[:300]})
+    if o2 != o:
+        diff = sorted(k for k in o if o[k] != o2.get(k))
+        raise Trouble("%s:%s:reopen-differs:%s" % (kind, opname(op), diff[0]),
+                      {"fields": diff, "before": o[diff[0]], "after_reopen": o2[diff[0]]})
+    if acc is not None:
+        acc.outcomes.add(hash(repr((o["changes"] and [c[:6] for c in o["changes"]], sorted(o["wt"].items())))))
+    return tree
+
+
+def opname(op):
+    if op[0] == "rm":
+        return "remove-" + op[2]
+    return {"mv": "rename_one", "unv": "unversion", "sadd": "smart_add", "revertp": "revert-path",
+            "flip": "kind-change"}.get(op[0], op[0])
+
+
+def replay(seq, kind, ns, check=False, acc=None):
+    """Fresh tree, seq executed on ONE live object, model alongside (checked if check)."""
+    tree = new_tree(kind)
+    m = Model(kind == "git", ns)
+    for i, op in enumerate(seq):
+        try:
+            tree = step(tree, m, op, kind, acc, check=check)
+        except Trouble as t:
+            t.detail["history"] = list(seq[:i + 1])
+            t.detail["mode"] = "live object"
+            raise
+        if check and acc is not None:
+            acc.count("live_steps")
+    return tree, m
+
+
+# ---- explicit-state search --------------------------------------------------------------
+
+_CFG = {}
+
+
+def _expand(chunk):
+    """Worker: for every history in the chunk build the state (live replay, checked when
+    cfg['check']) and execute every enabled op on a copy opened afresh."""
+    kind, ns, mode, check = _CFG["kind"], _CFG["ns"], _CFG["mode"], _CFG["check"]
+    acc = par.Acc()
+    acc.succ = []
+    acc.best = {}
+    for h in chunk:
+        try:
+            tree, m = replay(h, kind, ns, check=check and mode == "fresh", acc=acc)
+        except Trouble as t:
+            _note(acc, t.sig + ":live", t.detail)
+            continue
+        acc.count("states_expanded")
+        src = tree.basedir
+        ops = enabled(m)
+        for op in ops:
+            m2 = m.copy()
+            if mode == "fresh":
+                dst = src + "-x"
+                shutil.copytree(src, dst, symlinks=True)
+                from breezy.workingtree import WorkingTree
+                t2 = WorkingTree.open(dst)
+            else:
+                t2, _ = replay(h, kind, ns, check=False)
+                dst = t2.basedir
+            acc.n += 1
+            acc.count("op:" + opname(op))
+            try:
+                step(t2, m2, op, kind, acc, check=True)
+            except Trouble as t:
+                t.detail["history"] = list(h) + [op]
+                t.detail["mode"] = "reopened before the last op" if mode == "fresh" else "live object"
+                _note(acc, t.sig, t.detail)
+            else:
+                acc.succ.append((m2.key(), h + (op,)))
+                if m2.has_changes():
+                    acc.nt(m2.key())
+            shutil.rmtree(dst, ignore_errors=True)
+        shutil.rmtree(src, ignore_errors=True)
+    return acc
+
+
+def _note(acc, sig, detail):
+    acc.count("violations_raw")
+    cur = acc.best.get(sig)
+    k = (len(detail["history"]), repr(detail["history"]))
+    if cur is None or k < cur[0]:
+        acc.best[sig] = (k, detail)
+
+
+class Result:
+    pass
+
+
+_WARM = set()
+
+WARM_SEQ = (("write", "a", b"x\n"), ("mkdir", "d"), ("write", "d/a", b"y\n"), ("add", "a"), ("sadd",),
+            ("commit",), ("mv", "a", "b"), ("chmod", "d/a"), ("write", "b", b"y\n"), ("revertp", "b"),
+            ("move", "b", "d"), ("rm", "d/b", "safe"), ("revert",), ("unv", "a"), ("rm", "d", "force"),
+            ("commit",), ("reopen",), ("write", "b", b"x\n"), ("add", "b"), ("rm", "b", "keep"))
+
+
+def warm(kind):
+    """Resolve breezy's lazy imports in the parent (forked workers then inherit them) and create
+    the per-user files (ignore list) that concurrent workers would otherwise race to create."""
+    if kind in _WARM:
+        return
+    import logging
+    logging.getLogger("brz").setLevel(logging.ERROR)
+    from breezy import ignores
+    ignores.get_user_ignores()
+    tree = new_tree(kind)
+    m = Model(kind == "git", NS1)
+    for op in WARM_SEQ:
+        try:
+            tree = step(tree, m, op, kind, None, check=True)
+        except Trouble:
+            break
+    shutil.rmtree(tree.basedir, ignore_errors=True)
+    _WARM.add(kind)
+
+
+START_EMPTY = ()
+START_FULL = (("write", "a", b"x\n"), ("mkdir", "d"), ("write", "d/a", b"y\n"), ("sadd",), ("commit",))
+
+
+def explore(depth, kind, ns=NS1, seed=0, mode="fresh", check=True, jobs=None, start=START_EMPTY):
+    """Level-synchronous BFS.  mode 'fresh': every transition on a copy of the state directory
+    opened as a new object (and every representative history replayed on one live object);
+    mode 'live': every transition at the end of a replay of its history on one live object."""
+    _CFG.update(kind=kind, ns=ns, mode=mode, check=check)
+    warm(kind)
+    m0 = Model(kind == "git", ns)
+    for op in start:
+        m0.apply(op)
+    states = {m0.key(): tuple(start)}
+    frontier = [tuple(start)]
+    res = Result()
+    res.levels = []
+    res.best = {}
+    res.acc = par.Acc()
+    res.transitions = 0
+    for level in range(depth):
+        accs = par.pmap(_expand, frontier, seed=seed, jobs=jobs)
+        new = {}
+        for a in accs:
+            res.acc.merge(a)
+            for sig, (k, d) in a.best.items():
+                if sig not in res.best or k < res.best[sig][0]:
+                    res.best[sig] = (k, d)
+            for key, h in a.succ:
+                res.transitions += 1
+                if key in states:
+                    continue
+                if key not in new or h < new[key]:
+                    new[key] = h
+        states.update(new)
+        frontier = sorted(new.values())
+        res.levels.append(len(frontier))
+        if not frontier:
+            break
+    res.states = states
+    res.frontier = frontier
+    return res
+
+
+def sequences(depth, kind, ns=NS1, seed=0, jobs=None, start=START_EMPTY):
+    """One history per distinct state reachable by <= depth operations from `start` (shortest
+    first).  Transitions on which the real tree raises are not followed."""
+    r = explore(depth, kind, ns=ns, seed=seed, mode="fresh", check=False, jobs=jobs, start=start)
+    return sorted(r.states.values(), key=lambda h: (len(h), h))
